@@ -266,10 +266,17 @@ def run_hypothesis(col, strat, shard_seed, budget):
     import hypothesis
     from hypothesis import given
 
+    # Hypothesis always starts with the simplest example of the strategy: with one or two cases per shard every shard
+    # would run that same case, so only shard 0 keeps it
+    skip = [0 if col.ctx.shard == 0 else 1]
+
     @hypothesis.seed(shard_seed)
-    @_settings(budget)
+    @_settings(budget + skip[0])
     @given(strat.map(_Box))
     def collect(box):
+        if skip[0]:
+            skip[0] = 0
+            return
         col.one(box.case)
 
     collect()
@@ -282,9 +289,10 @@ def shrink_bucket(col, strat, shard_seed, budget, bucket, limit):
     from hypothesis import Phase, given
 
     t_end = time.time() + limit
+    extra = 0 if col.ctx.shard == 0 else 1
 
     @hypothesis.seed(shard_seed)
-    @_settings(budget, phases=[Phase.generate, Phase.shrink])
+    @_settings(budget + extra, phases=[Phase.generate, Phase.shrink])
     @given(strat.map(_Box))
     def hunt(box):
         if time.time() > t_end:
@@ -310,7 +318,9 @@ def run_case_direct(mod, partname, enc, tier="quick", seed=0):
     try:
         part.setup(ctx)
         try:
-            part.run(part.decode(enc), ctx)
+            res = part.run(part.decode(enc), ctx)
+            if isinstance(res, dict) and res.get("violations"):
+                return res["violations"][0][0]
         except Violation as v:
             return v
         except Inconclusive:
